@@ -25,6 +25,9 @@ type dateCase struct {
 	// (WantUnixAlt: second admissible reading of a two-digit year).
 	WantUnix    *int64 `json:"want_unix,omitempty"`
 	WantUnixAlt *int64 `json:"want_unix_alt,omitempty"`
+	// Via: also through the Last-Modified header of the library's servers and
+	// clients (headers.go): one of hdrVias, or "*" for all of them.
+	Via string `json:"via,omitempty"`
 }
 
 // fmtIMF / fmtRFC850 / fmtAsctime are the harness's own writers of the three
@@ -171,10 +174,22 @@ func execDateRoundTrip(c *fw.Ctx, cs dateCase) {
 			return wire, time.Time(g.LastModified), err
 		}},
 	}
+	headerAbsent := false
+	for _, via := range viasOf(cs.Via) {
+		via := via
+		paths = append(paths, path{"server Last-Modified header -> " + via + " client", func() (string, time.Time, error) {
+			g, err := hdrRoundTrip(via, "", t)
+			// the zero time.Time stands for "no modification time": its
+			// header may be left out (the instant still has to come back)
+			headerAbsent = err == nil && !g.hasWire && t.IsZero()
+			return g.wireLM, g.mod, err
+		}})
+	}
 	for _, p := range paths {
 		var wire string
 		var back time.Time
 		var err error
+		headerAbsent = false
 		panicked, pv, stack := fw.Guard(func() { wire, back, err = p.f() })
 		c.Observe("http_date_roundtrip_paths", p.name, 1)
 		if in.Zone.Kind == "named" && in.offsetAt() != 0 && wantSample(c, "http-date") {
@@ -187,6 +202,8 @@ func execDateRoundTrip(c *fw.Ctx, cs dateCase) {
 		switch {
 		case panicked:
 			reportPanic(c, "http-date", p.name, pv, stack, cs)
+		case err != nil && strings.HasPrefix(err.Error(), "harness:"):
+			c.Inconclusive("C16 " + p.name + ": " + err.Error())
 		case err != nil:
 			c.Report("roundtrip|http-date|decode-error", fmt.Sprintf("instant %s written as %q is refused on the way back (%s): %v", t, clip(wire), p.name, err), witness{"http-date", cs, got})
 		case !secondsOK(back.Unix(), in):
@@ -195,6 +212,8 @@ func execDateRoundTrip(c *fw.Ctx, cs dateCase) {
 				key = "roundtrip|http-date|non-UTC-shift"
 			}
 			c.Report(key, fmt.Sprintf("instant %s (unix %d) written as %q comes back as unix %d (%s)", t, in.Unix, clip(wire), back.Unix(), p.name), witness{"http-date", cs, got})
+		case headerAbsent:
+			c.Observe("http_date_roundtrip_paths", p.name+" (zero time: header left out)", 1)
 		default:
 			// The text on the wire must itself be an HTTP-date for the instant
 			// (implied by: the decoder takes it, and the decoder takes nothing
@@ -243,12 +262,22 @@ func execDateDecode(c *fw.Ctx, cs dateCase) {
 	type dec struct {
 		name string
 		f    func() (time.Time, error)
+		prim string // key element: "http-date", or "http-date-header" for the clients' own header readers
 	}
 	decs := []dec{{"UnmarshalText", func() (time.Time, error) {
 		var t internal.Time
 		err := t.UnmarshalText([]byte(text))
 		return time.Time(t), err
-	}}}
+	}, "http-date"}}
+	if headerValueOK(text) {
+		for _, via := range viasOf(cs.Via) {
+			via := via
+			decs = append(decs, dec{"Last-Modified header -> " + via + " client", func() (time.Time, error) {
+				g, err := hdrDecode(via, map[string]string{"Last-Modified": text})
+				return g.mod, err
+			}, "http-date-header"})
+		}
+	}
 	if xmlChardataOK(text) {
 		decs = append(decs, dec{"xml getlastmodified", func() (time.Time, error) {
 			var sb strings.Builder
@@ -258,13 +287,20 @@ func execDateDecode(c *fw.Ctx, cs dateCase) {
 			var g internal.GetLastModified
 			err := xml.Unmarshal([]byte(sb.String()), &g)
 			return time.Time(g.LastModified), err
-		}})
+		}, "http-date"})
 	}
 	for _, d := range decs {
 		var t time.Time
 		var err error
 		panicked, pv, stack := fw.Guard(func() { t, err = d.f() })
 		c.Observe("http_date_decode", label+"|"+verdict(err, panicked), 1)
+		if d.prim != "http-date" {
+			c.Observe("http_date_decode_header_side", d.name+"|"+label+"|"+verdict(err, panicked), 1)
+		}
+		if err != nil && strings.HasPrefix(err.Error(), "harness:") {
+			c.Inconclusive("C16 " + d.name + ": " + err.Error())
+			continue
+		}
 		got := map[string]interface{}{"decoder": d.name, "err": fw.ErrString(err)}
 		if err == nil && !panicked {
 			got["decoded"] = t.String()
@@ -275,11 +311,11 @@ func execDateDecode(c *fw.Ctx, cs dateCase) {
 			reportPanic(c, "http-date", d.name, pv, stack, cs)
 		case cls != "":
 			if err == nil {
-				c.Report("decode|http-date|accepts-"+cls, fmt.Sprintf("%s accepts %q (%s, outside the HTTP-date grammar) as %s", d.name, text, cls, t), witness{"http-date", cs, got})
+				c.Report("decode|"+d.prim+"|accepts-"+cls, fmt.Sprintf("%s accepts %q (%s, outside the HTTP-date grammar) as %s", d.name, text, cls, t), witness{"http-date", cs, got})
 			}
 		case err == nil && cs.WantUnix != nil:
 			if t.Unix() != *cs.WantUnix && (cs.WantUnixAlt == nil || t.Unix() != *cs.WantUnixAlt) {
-				c.Report("decode|http-date|instant-changed", fmt.Sprintf("%s reads %q as unix %d, want %d", d.name, text, t.Unix(), *cs.WantUnix), witness{"http-date", cs, got})
+				c.Report("decode|"+d.prim+"|instant-changed", fmt.Sprintf("%s reads %q as unix %d, want %d", d.name, text, t.Unix(), *cs.WantUnix), witness{"http-date", cs, got})
 			}
 		}
 	}
@@ -316,11 +352,11 @@ func runHTTPDate(c *fw.Ctx) {
 	if c.Shard == 0 {
 		calendarSelfCheck(c)
 		for _, nm := range dateNearMisses() {
-			execDate(c, dateCase{Mode: "decode", Text: B(nm.text), Class: nm.class})
+			execDate(c, dateCase{Mode: "decode", Text: B(nm.text), Class: nm.class, Via: "*"})
 		}
 		// boundary instants in UTC, exactly
 		for _, u := range boundaryInstants {
-			execDate(c, dateCase{Mode: "roundtrip", Instant: &instant{Unix: u, Zone: zoneSpec{Kind: "utc"}}})
+			execDate(c, dateCase{Mode: "roundtrip", Instant: &instant{Unix: u, Zone: zoneSpec{Kind: "utc"}}, Via: "*"})
 		}
 	}
 	n := c.Pick(100000, 1000000)
@@ -330,7 +366,7 @@ func runHTTPDate(c *fw.Ctx) {
 		}
 		r := c.Rand("http-date-instant", i)
 		in := genInstant(r)
-		execDate(c, dateCase{Mode: "roundtrip", Instant: &in})
+		execDate(c, dateCase{Mode: "roundtrip", Instant: &in, Via: hdrViaFor(i / 16)})
 	}
 	// Wire texts: the three in-grammar forms (value-checked when accepted),
 	// corruptions of them and arbitrary strings.
@@ -343,7 +379,7 @@ func runHTTPDate(c *fw.Ctx) {
 		}
 		r := c.Rand("http-date-text", i)
 		u := genInstant(r).Unix
-		cs := dateCase{Mode: "decode"}
+		cs := dateCase{Mode: "decode", Via: hdrViaFor(i / 16)}
 		switch r.Intn(10) {
 		case 0:
 			cs.Text, cs.WantUnix, cs.Class = B(fmtIMF(u)), &u, "ok"
